@@ -163,7 +163,10 @@ fn v1_views(input: &[u8], h: &v1::Header<'_>, entry: &str) -> Option<Mismatch> {
 pub fn meta_c15(input: &[u8]) -> Option<Mismatch> {
     guarded(input, "a view of the parsed v1 header (C15)", || {
         if let Ok(h) = v1::Header::try_from(input) { if let Some(m) = v1_views(input, &h, "bytes entry") { return Some(m); } }
-        if let Ok(t) = std::str::from_utf8(input) { if let Ok(h) = v1::Header::try_from(t) { if let Some(m) = v1_views(input, &h, "text entry") { return Some(m); } } }
+        if let Ok(t) = std::str::from_utf8(input) {
+            if let Ok(h) = v1::Header::try_from(t) { if let Some(m) = v1_views(input, &h, "text entry") { return Some(m); } }
+            if let Ok(h) = t.parse::<v1::Header<'static>>() { if let Some(m) = v1_views(input, &h, "FromStr<Header>") { return Some(m); } }
+        }
         None
     })
 }
@@ -173,7 +176,10 @@ pub fn meta_c15(input: &[u8]) -> Option<Mismatch> {
 pub fn meta_c08(input: &[u8]) -> Option<Mismatch> {
     guarded(input, "formatting a parsed v1 header (C08)", || {
         if let Ok(h) = v1::Header::try_from(input) { let t: &str = h.header.as_ref(); if h.to_string() != t || !input.starts_with(h.to_string().as_bytes()) { return mm(input, format!("formats back to {:?}", t), format!("{:?}", h.to_string())); } }
-        if let Ok(t) = std::str::from_utf8(input) { if let Ok(h) = v1::Header::try_from(t) { let x: &str = h.header.as_ref(); if h.to_string() != x || !t.starts_with(&h.to_string()) { return mm(input, format!("formats back to {:?}", x), format!("{:?}", h.to_string())); } } }
+        if let Ok(t) = std::str::from_utf8(input) {
+            if let Ok(h) = v1::Header::try_from(t) { let x: &str = h.header.as_ref(); if h.to_string() != x || !t.starts_with(&h.to_string()) { return mm(input, format!("formats back to {:?}", x), format!("{:?}", h.to_string())); } }
+            if let Ok(h) = t.parse::<v1::Header<'static>>() { if !t.starts_with(&h.to_string()) || !h.to_string().ends_with("\r\n") { return mm(input, "FromStr<Header>: formats back to the line it was parsed from", format!("{:?}", h.to_string())); } }
+        }
         None
     })
 }
